@@ -5,6 +5,7 @@ CONSTANTS
  MaxTicket = 10
  MaxStale = 0
  MaxExh = 0
+ MaxReins = 0
  AllowRemove = FALSE
  Dev = {"stale_ticket"}
 INVARIANTS FairBoundTight
